@@ -535,6 +535,10 @@ func runSentinel(name string) (fails []fail, obs string) {
 		"string-limit":               {src: "a := \"aaaa\" + \"bbbbb\"", is: tengo.ErrStringLimit, maxStr: 8},
 		"string-limit-format":        {src: "a := format(\"%s%s\", \"aaaa\", \"bbbbb\")", is: tengo.ErrStringLimit, maxStr: 8},
 		"bytes-limit-plus":           {src: "a := bytes(\"aaaa\") + bytes(\"bbbbb\")", is: tengo.ErrBytesLimit, maxBytes: 8},
+		"string-limit-plus-int":      {src: "a := \"aaaaaa\" + 12345", is: tengo.ErrStringLimit, maxStr: 8},
+		"string-limit-plus-float":    {src: "a := \"aaaaaa\" + 1.2345", is: tengo.ErrStringLimit, maxStr: 8},
+		"string-limit-plus-array":    {src: "a := \"aaaaaa\" + [1, 2, 3]", is: tengo.ErrStringLimit, maxStr: 8},
+		"string-limit-plus-map":      {src: "a := \"aaaaaa\" + {k: 1}", is: tengo.ErrStringLimit, maxStr: 8},
 	}
 	sites := map[string]string{
 		"top":        "%s",
@@ -611,7 +615,7 @@ func runSentinel(name string) (fails []fail, obs string) {
 
 var sentinels = func() []string {
 	out := []string{"wrong-num-args-fn", "host-error", "host-error-nested", "host-error-typed"}
-	for _, k := range []string{"index-out-of-bounds", "index-out-of-bounds-splice", "stack-overflow", "alloc-limit", "bytes-limit", "string-limit", "string-limit-format", "bytes-limit-plus"} {
+	for _, k := range []string{"index-out-of-bounds", "index-out-of-bounds-splice", "stack-overflow", "alloc-limit", "bytes-limit", "string-limit", "string-limit-format", "bytes-limit-plus", "string-limit-plus-int", "string-limit-plus-float", "string-limit-plus-array", "string-limit-plus-map"} {
 		for _, s := range []string{"top", "in-func", "in-closure", "in-loop"} {
 			out = append(out, k+"@"+s)
 		}
